@@ -27,6 +27,8 @@ Dropped(c, t) ==
       [] Deviation = "zero_concurrency" -> c.op = "addGnet" /\ c.opt = "concurrency"
       [] Deviation = "neg_bufsize"   -> c.op = "addGnet" /\ c.opt = "bufSize"
       [] Deviation = "ch_empty"      -> c.op = "delDest"
+      [] Deviation = "gnet_addr"     -> c.op = "addGnet" /\ c.opt = "addr"
+      [] Deviation = "tiny_maxage"   -> c.op = "config" /\ c.opt = "bad_metrics_max_age"
       [] OTHER -> FALSE
 
 Results(c, t) == IF MustReject(c, t) /\ ~Dropped(c, t) THEN {"rej"} ELSE {"acc", "rej"}
@@ -35,6 +37,7 @@ Init == table = EmptyTable /\ ncmd = 0 /\ last = "none"
 
 Apply(c) ==
     /\ ncmd < MaxCmds
+    /\ (FirstOnly(c) => ncmd = 0)
     /\ (c.op \in {"addRoute", "addGnet"} => Len(table.routes) < MaxRoutes)
     /\ (c.op = "addAgg" => Len(table.aggs) < MaxAggs)
     /\ \E res \in Results(c, table) :
